@@ -311,6 +311,9 @@ def _blk(fn, n):
 
 
 def check(P, R, tier):
+    import timedecode
+    ntd = timedecode.run_parallel(R, P, "RF2-time", every=(tier == "thorough"), jobs=14)
+    R.floor("RF2-time", "decoded points of second / minute / hour addition, epoch conversion and second differences", ntd, 2000000)
     ttu = P.tu("libdut_a-time-core.o")
     dtu = P.tu("libdut_a-dt-core.o")
     check_divrem(P, R, ttu)
